@@ -20,7 +20,7 @@ ASSUMPTIONS = ["aggregates are compared with sums recomputed from the component 
 
 
 def gen_fn(rng):
-    return gen.gen_system(rng, phases=0.5, n_sources=rng.choice([1, 2, 2, 3, 4]), p_mux=0.6, max_nodes=18, p_neg_src_rs=0.0, p_dup=0.15, p_rail=0.3,
+    return gen.gen_system(rng, phases=0.5, n_sources=rng.choice([1, 2, 2, 3, 4]), p_mux=0.6, max_nodes=18, p_neg_src_rs=0.0, p_dup=0.15, p_rail=0.3, p_rename=0.25,
                           p_group=rng.choice([0.0, 0.3]))
 
 
